@@ -454,6 +454,14 @@ def main(pid, tier, seed):
             if v[0] != 'ACCEPT':
                 m = meta[t['tid']]
                 verdict.violation(dict(m, clause='C15_resumes_at_next_guess'), 'generator resume; %s' % core.short(m))
+    def corrupt(t):
+        x = t['sess'][0]['x']
+        if len(x) < 3:
+            return None
+        del x[1]                                     # one guess missing in the middle of the stream
+        return t
+    accepted = [t for t in traces if verdicts[t['tid']][0] == 'ACCEPT']
+    selftest = core.binding_selftest('TrSession.tla', accepted, corrupt)
     # ---- I-layer conformance (drift only): gate logs are behaviours of Session.tla ----
     drift = []
     n_itr = 0
@@ -487,6 +495,7 @@ def main(pid, tier, seed):
                    'level at position j followed by further quit/resume cycles, or one MarkovCracker save/load at cut j',
            'rulesets': n_rules, 'trace_validation': {'TrSession': st, 'TrOmen': st2, 'TrSession_I': ist}, 'exhaustive': False,
            'spec_to_code': s2c,
+           'binding_selftest': selftest,
            'impl_conformance': {'gate_logs': n_itr, 'result': 'drift' if drift else 'conforms', 'drift_examples': drift[:3], 'n_drift': len(drift)},
            'known_findings_reproduced': n_known, 'violation_histogram': verdict.histogram()}
     core.write_evidence(pid, tier, seed, 'model_checking', cov, time.time() - t0, violations=n_viol,
